@@ -42,6 +42,10 @@ type VictimOp struct {
 	// call fails once), so the follow-up runs on a healthy file system: state that
 	// a failed operation left behind in memory must not reach the disk through it.
 	Then string `json:"then,omitempty"`
+	// Next: for Then == "removenext" the snapshot (disk name) the victim removes
+	// next on the same replica object - the way the cleaner goes on to the next
+	// candidate after a removal that failed - before it closes the replica
+	Next string `json:"next,omitempty"`
 	// PreRebuilding: the victim sets the rebuilding flag (outside the traced window) before the operation
 	PreRebuilding bool `json:"prerebuilding,omitempty"`
 }
@@ -102,6 +106,21 @@ func victimMain() int {
 		var terr error
 		if strings.HasPrefix(op.Then, "touch") && s.Replica() != nil {
 			terr = s.SetRebuilding(false)
+		}
+		if op.Then == "removenext" && s.Replica() != nil {
+			if e := victimDo(s, dir, VictimOp{K: "remove", Name: op.Next}); e != nil {
+				fmt.Println("THEN removal refused:", e)
+			}
+			// what the running replica serves now (before any reopen)
+			if r := s.Replica(); r != nil {
+				buf := make([]byte, r.Info().Size)
+				if _, e := s.ReadAt(buf, 0); e != nil {
+					fmt.Println("THEN read error:", e)
+				} else if e := os.WriteFile(dir+".thenlive", buf, 0600); e != nil {
+					fmt.Println("THEN read error:", e)
+				}
+			}
+			terr = s.Close()
 		}
 		if strings.HasSuffix(op.Then, "close") && terr == nil {
 			terr = s.Close()
